@@ -86,6 +86,10 @@ scrape_configs:
         action: replace
       - regex: "tmp_.*"
         action: labeldrop
+      - source_labels: [rack]
+        regex: "rack (.+)"
+        target_label: rack_id
+        replacement: "id $1"
     metric_relabel_configs:
       - source_labels: [__name__]
         regex: "go_.*"
@@ -125,7 +129,7 @@ remote_write:
     remote_timeout: 20s
     basic_auth:
       username: rwu
-      password: rwpass
+      password: "correct horse"
     write_relabel_configs:
       - source_labels: [__name__]
         regex: "up|node_.*"
@@ -177,6 +181,10 @@ func editScalar(key string, v interface{}) []interface{} {
 	case bool:
 		return []interface{}{!t}
 	case string:
+		if strings.Contains(t, " ") {
+			// an edit that changes white space only - inside a scalar, where it is content
+			return []interface{}{strings.Replace(t, " ", "  ", 1), t + "x"}
+		}
 		switch {
 		case durRe.MatchString(t):
 			return []interface{}{"7" + t}
@@ -417,6 +425,11 @@ func init() {
 			chk.Fatalf("%v", err)
 		}
 		edits := c16Edits(ms)
+		rb, _ := yaml.Marshal(ms)
+		renderedBase := string(rb)
+		if h, err := c16Hash(renderedBase); err != nil || h != baseHash {
+			chk.Fatalf("the re-rendered base hashes to %s, the base to %s (%v)", h, baseHash, err)
+		}
 		var idx int64 = -1
 		scratch := os.Getenv("VERIF_SCRATCH")
 		self, _ := os.Executable()
@@ -455,6 +468,22 @@ func init() {
 			r.Outcome(h)
 			if r.States%41 == 1 {
 				r.Sample(3, map[string]interface{}{"edit": e.Kind, "path": e.Path, "hash_base": baseHash, "hash_edited": h, "parsed_equal": same})
+			}
+			// the same edit arriving as a RELOAD on a manager that runs the base (and back): a long-running process
+			// advertises what a fresh one computes
+			{
+				// (the base in the same rendering as the edit, so that the two texts differ in the edit only)
+				m := prom.NewConfigManager()
+				_ = m.ReloadFromRaw([]byte(renderedBase))
+				errE := m.ReloadFromRaw([]byte(e.Text))
+				hE := m.ConfigInfo().ConfigHash
+				errB := m.ReloadFromRaw([]byte(renderedBase))
+				hB := m.ConfigInfo().ConfigHash
+				r.Transitions += 2
+				if errE != nil || errB != nil || hE != h || hB != baseHash {
+					r.Violate("C16:history-dependent:reload-of-single-edit", "same-content-same-hash", fmt.Sprintf("edit %s (%s) reloaded on a manager running the base: hash %s (fresh process: %s), back to the base: %s (fresh: %s) (%v / %v)", e.Path, e.Kind, hE, h, hB, baseHash, errE, errB), idx,
+						&c16Replay{Property: "C16", Clause: "same-content-same-hash", Edit: e.Kind, Path: e.Path, A: c16Base, B: e.Text, HashA: h, HashB: hE})
+				}
 			}
 			if !same && h == baseHash {
 				leaf := e.Path[strings.LastIndex(e.Path, "/")+1:]
@@ -687,6 +716,16 @@ func init() {
 				h1v, err := c16Hash(vt)
 				r.States++
 				r.Transitions++
+				// ... and as a reload on a manager that runs the original text
+				{
+					m := prom.NewConfigManager()
+					_ = m.ReloadFromRaw([]byte(text))
+					errV := m.ReloadFromRaw([]byte(vt))
+					if ci := m.ConfigInfo(); errV != nil || ci.ConfigHash != h0 || string(ci.RawContent) != vt {
+						r.Violate("C16:history-dependent:reload-of-reformatted-text", "formatting-ignored", fmt.Sprintf("variant %s of %s reloaded on a manager running the original: hash %s vs %s, hands out the new text: %v (%v)", vn, name, ci.ConfigHash, h0, string(ci.RawContent) == vt, errV), idx,
+							&c16Replay{Property: "C16", Clause: "formatting-ignored", Edit: vn, A: text, B: vt, HashA: h0, HashB: ci.ConfigHash})
+					}
+				}
 				if err != nil || h1v != h0 {
 					r.Violate("C16:format-sensitive:"+vn, "formatting-ignored", fmt.Sprintf("variant %s of %s: hash %s vs %s (%v)", vn, name, h1v, h0, err), idx,
 						&c16Replay{Property: "C16", Clause: "formatting-ignored", Edit: vn, A: text, B: vt, HashA: h0, HashB: h1v})
